@@ -666,6 +666,9 @@ func (g *gen) convert(ins *ssa.Convert) {
 		base := g.newAlloc("bytes")
 		v := g.defineVal(ins, app("mk_slice", base, "0", app("str.len", x.T), app("str.len", x.T)))
 		_ = v
+		// ghost: the text the byte slice was made from
+		g.declareFun("bytes_as_string", []string{"Int"}, "String")
+		g.assume(eq(app("bytes_as_string", base), x.T))
 	default:
 		g.havocVal(ins)
 		g.unsupportedf("convert %s -> %s", ins.X.Type(), ins.Type())
